@@ -175,3 +175,15 @@ check("C11", "fault_enumeration",
       "trusted: TLC; process death = os._exit / SIGKILL (page cache survives, power loss not modelled); crashes inside SQLite's own C code are "
       "reached only by the random SIGKILLs and the bulk-transaction scenario", "TLC crash model + crash-point enumeration on real SQLite + TLC trace validation",
       "DESIGN.md 5/C11")
+
+check("C18", "model_checking",
+      "Swarm.tla: one particle coordinate and the leader archive as a state machine (SetVelocity with clamp, Move with both bound reactions - "
+      "reverse for OMOPSO / PSOGA, 1/1000 damping for SMPSO as exact rationals, Evaluate, UpdateBest, UpdateLeaders = non-dominated insert + "
+      "truncation to N); TLC checks in-box after every move from positions -3..7 with velocities -9..9 (far outside the box [0,4]), clamped "
+      "velocity, personal best never replaced by a dominated position (action property), leaders <= N and mutually non-dominated over 2 (3) "
+      "generations, and the complete Move / Clamp / Best tables. The Move table is replayed through update_position of the three classes on "
+      "shifted / scaled boxes, speed_constriction on 204 integer cases, update_velocity on three box classes, update_particle_best for all 324 "
+      "ordered pairs of model vectors, scripted leader generations (ties, duplicates, infeasible members, small swarms) and whole runs with "
+      "observers on the public update methods; SwarmTrace judges every event.",
+      "trusted: TLC; integer lattice for positions / velocities; rank abstraction of costs",
+      "TLC exhaustive model + model tables replayed + TLC trace validation of real swarm runs", "DESIGN.md 5/C18")
